@@ -656,6 +656,7 @@ static const struct c09_setup second[] = {
 #define NSECOND 4
 
 #define NFORKCFG 12
+#define NPRE9 8 /* one source on a handle whose first start (deadline 1 ms) failed; polled after that time has passed */
 
 static void c09_fork_cfg(long k)
 {
@@ -703,19 +704,29 @@ static long c09_n(int tier)
   /* one source: setup x 16 masks x 2 timeouts; two sources: setup x second x {mask pairs reduced} x 2 timeouts, with a NULL source interleaved */
   long one = (long) NSETUP * 16 * 2;
   long two = (long) NSETUP2(tier) * NSECOND * (tier ? 16 : 4) * 2 * 2;
-  return one + two + NFORKCFG;
+  return one + two + NFORKCFG + NPRE9;
 }
 
 static void c09_run(int tier, long cfg)
 {
   long one = (long) NSETUP * 16 * 2;
+  int pre9 = 0;
   {
     long two = (long) NSETUP2(tier) * NSECOND * (tier ? 16 : 4) * 2 * 2;
-    if (cfg >= one + two) { c09_fork_cfg(cfg - one - two); return; }
+    if (cfg >= one + two + NFORKCFG) pre9 = (int) (cfg - one - two - NFORKCFG) + 1;
+    else if (cfg >= one + two) { c09_fork_cfg(cfg - one - two); return; }
   }
   struct c09_setup su[2];
   int masks[2] = { 0, 0 }, timeout, n = 1;
-  if (cfg < one) {
+  if (pre9) {
+    int k = pre9 - 1;
+    timeout = (k & 1) ? 2 : 0;
+    masks[0] = 15;
+    memset(&su[0], 0, sizeof su[0]);
+    su[0].os = (k & 2) ? OS_DATA : OS_IDLE;
+    su[0].ins = INS_IDLE;
+    su[0].cs = (k & 4) ? CS_ZOMBIE : CS_RUNNING;
+  } else if (cfg < one) {
     timeout = (cfg % 2) ? 2 : 0;
     cfg /= 2;
     masks[0] = (int) (cfg % 16);
@@ -748,15 +759,18 @@ static void c09_run(int tier, long cfg)
   if (n == 2)
     snprintf(key9 + strlen(key9), sizeof key9 - strlen(key9), "|second=%s,%s,%s%s", os_names[su[1].os], ins_names[su[1].ins], cs_names[su[1].cs],
              su[1].expired_deadline ? ",deadline-expired" : "");
+  if (pre9) snprintf(key9 + strlen(key9), sizeof key9 - strlen(key9), "|after-failed-start-with-deadline");
   hx_desc("%s", key9);
-  snprintf(key9, sizeof key9, "h_c09|sources=%d", n == 2 ? 3 : 1);
+  snprintf(key9, sizeof key9, "h_c09|sources=%d%s", n == 2 ? 3 : 1, pre9 ? "|second-start" : "");
   hx_begin();
   vk_set_hang_hook(c09_hang);
   struct proc procs[3];
   memset(procs, 0, sizeof procs);
   reproc_event_source src[3];
   int ns = 0;
+  proc_prefail = pre9 != 0;
   c09_prepare(&procs[0], &su[0]);
+  if (pre9) vk_advance(3);
   src[ns].process = procs[0].p; src[ns].interests = masks[0]; src[ns].events = 0x7f; ns++;
   if (n == 2) {
     /* a source without process in between */
